@@ -60,6 +60,7 @@ def ifaces_for(spec):
 
 
 def run_jobs(jobs, timeout=60, chunk=8, total_timeout=3000):
+    common.ensure_native()
     res = []
     for i in range(0, len(jobs), chunk):
         res += common.run_impl("iterate_run.py", {"jobs": jobs[i:i + chunk], "timeout": timeout}, timeout=total_timeout)["jobs"]
